@@ -15,3 +15,4 @@ import ScadVerif.Props.C16
 import ScadVerif.Props.C15
 import ScadVerif.Props.C17
 import ScadVerif.Props.C19
+import ScadVerif.Props.C18
